@@ -217,3 +217,173 @@ Print Assumptions C10_DStream_sizes_suffice.
 Theorem C10_CStreamOutSize_direct : forall n cap : N, n <= BLOCKMAX -> s_CStreamOutSize <= cap -> fits_bound cap n = true.
 Proof. exact cstream_out_size_direct. Qed.
 Print Assumptions C10_CStreamOutSize_direct.
+
+(* ---------------- (a), (b) at the level of the public entry points: ZSTD_compressStream2 / ZSTD_compressStream /
+   ZSTD_flushStream / ZSTD_endStream mixed in one history, stable or buffered input (coq/Stream/C10Api.v) ---------------- *)
+From ZV.Stream Require Import C10Api C10ApiProofs.
+
+(* the invariant AInv of API-level histories holds of a fresh context ... *)
+Theorem C10_api_invariant_initially : forall (CS : Type) (cs_begin : CS -> fconf -> N -> CS)
+    (compress_chunk : CS -> bytes -> bool -> CS * bytes) (P : kparams) (X : bytes) (cs : CS),
+  AInv CS cs_begin compress_chunk P X (a_new cs) [] [] cs [].
+Proof. exact AInv_new. Qed.
+Print Assumptions C10_api_invariant_initially.
+
+(* ... and of every state reached by any history of the four entry points over one input array (any sizes, capacities,
+   directives; the wrappers present the recorded stable buffer or {NULL,0,0} as inBuffer_forEndFlush decides, and
+   ZSTD_keepCallerPosition gives back what they could not compress of the bytes already reported as consumed) *)
+Theorem C10_api_invariant_reachable : forall (CS : Type) (cs_begin : CS -> fconf -> N -> CS)
+    (compress_chunk : CS -> bytes -> bool -> CS * bytes) (P : kparams) (X : bytes) (ops : list aop) (a : astate CS) (em : bytes)
+    (dones : list (CS * list (bytes * bool))) (cs0 : CS) (chunks : list (bytes * bool)) (a' : astate CS) (em' : bytes),
+  AInv CS cs_begin compress_chunk P X a em dones cs0 chunks -> ops_ok ops ->
+  arun CS cs_begin compress_chunk P X a ops em = Some (a', em') ->
+  exists (dones' : list (CS * list (bytes * bool))) (cs0' : CS) (chunks' : list (bytes * bool)),
+    AInv CS cs_begin compress_chunk P X a' em' dones' cs0' chunks'.
+Proof. exact api_invariant. Qed.
+Print Assumptions C10_api_invariant_reachable.
+
+(* fix 13b2cf8 as a theorem: in every reachable state, when the wrappers present {NULL,0,0} no input that was reported as
+   consumed is still owed (with the decision of the old code, wview_applied_only, this is false: ex_old_wrapper_view) *)
+Theorem C10_wrappers_keep_deferred_input : forall (CS : Type) (cs_begin : CS -> fconf -> N -> CS)
+    (compress_chunk : CS -> bytes -> bool -> CS * bytes) (P : kparams) (X : bytes) (a : astate CS) (em : bytes)
+    (dones : list (CS * list (bytes * bool))) (cs0 : CS) (chunks : list (bytes * bool)),
+  AInv CS cs_begin compress_chunk P X a em dones cs0 chunks -> wview (a_k a) = false -> k_held (a_k a) = [].
+Proof. exact wrappers_keep_deferred. Qed.
+Print Assumptions C10_wrappers_keep_deferred_input.
+
+(* a ZSTD_compressStream2 / ZSTD_compressStream call given input and room takes input - counting input that an earlier
+   call reported as consumed and that is only compressed now - or produces output, or completes the frame *)
+Theorem C10_api_call_progress : forall (CS : Type) (cs_begin : CS -> fconf -> N -> CS)
+    (compress_chunk : CS -> bytes -> bool -> CS * bytes) (P : kparams) (X : bytes) (a : astate CS) (em : bytes)
+    (dones : list (CS * list (bytes * bool))) (cs0 : CS) (chunks : list (bytes * bool)) (fc : fconf) (n cap : N) (dir : directive) (r : N),
+  AInv CS cs_begin compress_chunk P X a em dones cs0 chunks -> 1 <= fc_maxBlock fc ->
+  tk n (dr (a_pos a) X) <> [] -> 0 < cap ->
+  let o := a_call CS cs_begin compress_chunk P fc X a n cap dir in
+  ao_ret o = Some r ->
+  (0 < ao_consumed o + Z.of_N (lenN (k_held (a_k a))))%Z \/ ao_out o <> [] \/
+  (k_stage (a_k (ao_a o)) = KInit /\ k_frameEnded (a_k (ao_a o)) = true).
+Proof. exact api_call_progress. Qed.
+Print Assumptions C10_api_call_progress.
+
+(* ZSTD_flushStream returned 0: nothing pending in inBuff / outBuff and, in a live frame, nothing owed
+   (stableIn_notConsumed = 0): fixes 13b2cf8 and 62dea3d as a theorem *)
+Theorem C10_flushStream_complete : forall (CS : Type) (cs_begin : CS -> fconf -> N -> CS)
+    (compress_chunk : CS -> bytes -> bool -> CS * bytes) (P : kparams) (X : bytes) (a : astate CS) (em : bytes)
+    (dones : list (CS * list (bytes * bool))) (cs0 : CS) (chunks : list (bytes * bool)) (fc : fconf) (cap : N),
+  AInv CS cs_begin compress_chunk P X a em dones cs0 chunks -> 1 <= fc_maxBlock fc ->
+  let o := a_flushStream CS cs_begin compress_chunk P fc X a cap in
+  ao_ret o = Some 0 ->
+  k_inPend (a_k (ao_a o)) = [] /\ k_outPend (a_k (ao_a o)) = [] /\
+  (k_stage (a_k (ao_a o)) = KLoad -> k_held (a_k (ao_a o)) = []).
+Proof. exact api_flushStream_complete. Qed.
+Print Assumptions C10_flushStream_complete.
+
+(* an unfinished ZSTD_endStream call (return value <> 0) has filled the whole output buffer it was given *)
+Theorem C10_endStream_fills_output : forall (CS : Type) (cs_begin : CS -> fconf -> N -> CS)
+    (compress_chunk : CS -> bytes -> bool -> CS * bytes) (P : kparams) (X : bytes) (a : astate CS) (em : bytes)
+    (dones : list (CS * list (bytes * bool))) (cs0 : CS) (chunks : list (bytes * bool)) (fc : fconf) (cap ck r : N),
+  AInv CS cs_begin compress_chunk P X a em dones cs0 chunks -> 1 <= fc_maxBlock fc ->
+  let o := a_endStream CS cs_begin compress_chunk P fc X a cap ck in
+  ao_ret o = Some r -> r <> 0 -> lenN (ao_out o) = cap.
+Proof. exact api_endStream_fills_output. Qed.
+Print Assumptions C10_endStream_fills_output.
+
+(* ZSTD_endStream returned 0: the frame is closed, the session reset, nothing owed *)
+Theorem C10_endStream_complete : forall (CS : Type) (cs_begin : CS -> fconf -> N -> CS)
+    (compress_chunk : CS -> bytes -> bool -> CS * bytes) (P : kparams) (X : bytes) (a : astate CS) (em : bytes)
+    (dones : list (CS * list (bytes * bool))) (cs0 : CS) (chunks : list (bytes * bool)) (fc : fconf) (cap ck : N),
+  AInv CS cs_begin compress_chunk P X a em dones cs0 chunks -> 1 <= fc_maxBlock fc ->
+  let o := a_endStream CS cs_begin compress_chunk P fc X a cap ck in
+  ao_ret o = Some 0 ->
+  k_stage (a_k (ao_a o)) = KInit /\ k_frameEnded (a_k (ao_a o)) = true /\ k_held (a_k (ao_a o)) = [].
+Proof. exact api_endStream_complete. Qed.
+Print Assumptions C10_endStream_complete.
+
+(* whole API-level histories, part (b): in any reachable state that a completed flush leaves (live frame, nothing pending,
+   nothing owed - see C10_flushStream_complete / C10_cstream_flush_complete) the input up to the position the caller holds
+   is exactly what went through the block compressor and the emitted bytes are exactly its output; so, given the
+   decodability of the block compressor (hypothesis, discharged per run), the emitted prefix decodes to that input *)
+Theorem C10_api_flushed_prefix_decodable : forall (CS : Type) (cs_begin : CS -> fconf -> N -> CS)
+    (compress_chunk : CS -> bytes -> bool -> CS * bytes) (Dp : bytes -> option bytes),
+  (forall (cs : CS) (fc : fconf) (pl : N) (chunks : list (bytes * bool)),
+     nolast chunks -> Dp (outs CS compress_chunk (cs_begin cs fc pl) chunks) = Some (chunks_in chunks)) ->
+  forall (P : kparams) (X : bytes) (a : astate CS) (em : bytes) (dones : list (CS * list (bytes * bool))) (cs0 : CS)
+    (chunks : list (bytes * bool)),
+  AInv CS cs_begin compress_chunk P X a em dones cs0 chunks ->
+  k_stage (a_k a) = KLoad -> k_inPend (a_k a) = [] -> k_outPend (a_k a) = [] -> k_held (a_k a) = [] ->
+  tk (a_pos a) X = frames_in CS dones ++ chunks_in chunks /\
+  em = frames_out CS compress_chunk dones ++ outs CS compress_chunk cs0 chunks /\
+  nolast chunks /\ (dones = [] -> Dp em = Some (tk (a_pos a) X)).
+Proof. exact api_flushed_prefix_decodable. Qed.
+Print Assumptions C10_api_flushed_prefix_decodable.
+
+(* ... and in any reachable state a completed end leaves, the emitted bytes are a concatenation of frames each decoding
+   to its part of the input up to the position the caller holds *)
+Theorem C10_api_ended_roundtrip : forall (CS : Type) (cs_begin : CS -> fconf -> N -> CS)
+    (compress_chunk : CS -> bytes -> bool -> CS * bytes) (D : bytes -> option bytes),
+  (forall (cs : CS) (fc : fconf) (pl : N) (chunks : list (bytes * bool)),
+     complete chunks -> D (outs CS compress_chunk (cs_begin cs fc pl) chunks) = Some (chunks_in chunks)) ->
+  forall (P : kparams) (X : bytes) (a : astate CS) (em : bytes) (dones : list (CS * list (bytes * bool))) (cs0 : CS)
+    (chunks : list (bytes * bool)),
+  AInv CS cs_begin compress_chunk P X a em dones cs0 chunks ->
+  k_stage (a_k a) = KInit -> k_frameEnded (a_k a) = true -> k_held (a_k a) = [] ->
+  exists frames : list (bytes * bytes),
+    tk (a_pos a) X = concat (map fst frames) /\ em = concat (map snd frames) /\
+    forall io, In io frames -> D (snd io) = Some (fst io).
+Proof. exact api_ended_roundtrip. Qed.
+Print Assumptions C10_api_ended_roundtrip.
+
+(* fix 177647f: ZSTD_CCtx_reset(session_only) leaves nothing owed *)
+Theorem C10_reset_forgets_deferred_input : forall (CS : Type) (a : astate CS),
+  k_held (a_k (a_reset a)) = [] /\ k_stage (a_k (a_reset a)) = KInit.
+Proof. exact api_reset_forgets. Qed.
+Print Assumptions C10_reset_forgets_deferred_input.
+
+(* non-vacuity and the three repaired defects on a concrete instance: the store compressor (a chunk is emitted as it is),
+   stable input, blocks of 4 bytes.  10 bytes are deferred by a ZSTD_e_continue call; ZSTD_flushStream through 3 bytes of
+   room compresses one block and owes 6 bytes again; the next ZSTD_flushStream completes; ZSTD_endStream closes the frame:
+   the 10 bytes come out *)
+Definition ex_begin (_ : unit) (_ : fconf) (_ : N) : unit := tt.
+Definition ex_chunk (_ : unit) (c : bytes) (_ : bool) : unit * bytes := (tt, c).
+Definition exP : kparams := {| kp_stableIn := true; kp_stableOut := false; kp_magicless := false |}.
+Definition exfc : fconf := {| fc_windowLog := 10; fc_maxBlock := 4; fc_pledge := 18446744073709551615 |}.
+Definition exX : bytes := [1;2;3;4;5;6;7;8;9;10;11;12].
+Definition ex_run (ops : list aop) := arun unit ex_begin ex_chunk exP exX (a_new tt) ops [].
+Example ex_api_history :
+  (match ex_run [OCall 10 100 DirContinue exfc; OFlush 3 exfc] with
+   | Some (a, em) => Some (k_stage (a_k a), a_pos a, k_held (a_k a), em) | None => None end)
+    = Some (KFlush, 10, [5;6;7;8;9;10], [1;2;3]) /\
+  (match ex_run [OCall 10 100 DirContinue exfc; OFlush 3 exfc; OFlush 100 exfc] with
+   | Some (a, em) => Some (k_stage (a_k a), a_pos a, k_held (a_k a), em) | None => None end)
+    = Some (KLoad, 10, [], [1;2;3;4;5;6;7;8;9;10]) /\
+  (match ex_run [OCall 10 100 DirContinue exfc; OFlush 3 exfc; OFlush 100 exfc; OEnd 100 0 exfc] with
+   | Some (a, em) => Some (k_stage (a_k a), k_frameEnded (a_k a), a_pos a, em) | None => None end)
+    = Some (KInit, true, 10, [1;2;3;4;5;6;7;8;9;10]).
+Proof. vm_compute. repeat split. Qed.
+(* 13b2cf8: after the deferred call the old decision (appliedParams only) presents {NULL,0,0} although 10 bytes are owed *)
+Example ex_old_wrapper_view :
+  match ex_run [OCall 10 100 DirContinue exfc] with
+  | Some (a, _) => wview_applied_only (a_k a) = false /\ wview (a_k a) = true /\ k_held (a_k a) = [1;2;3;4;5;6;7;8;9;10]
+  | None => False
+  end.
+Proof. vm_compute. repeat split. Qed.
+(* 177647f: a reset that keeps stableIn_notConsumed makes the next frame (2 new bytes, ZSTD_e_end) carry the 10 abandoned bytes *)
+Example ex_old_reset :
+  match ex_run [OCall 10 100 DirContinue exfc] with
+  | Some (a, _) =>
+      ao_out (a_call unit ex_begin ex_chunk exP exfc exX (a_reset_keeps_held a) 2 100 DirEnd) = [1;2;3;4;5;6;7;8;9;10;11;12] /\
+      ao_out (a_call unit ex_begin ex_chunk exP exfc exX (a_reset a) 2 100 DirEnd) = [11;12]
+  | None => False
+  end.
+Proof. vm_compute. repeat split. Qed.
+
+(* the input size hint after any API-level history from a fresh context: in a frame in progress ZSTD_nextInputSizeHint -
+   the value ZSTD_compressStream returns - is at least 1 and at most one block + 1 (the + 1: inBuffTarget = blockSize + 1
+   when the pledged size is exactly one block); in particular it never wraps around (cf. d436c52) *)
+Theorem C10_api_hint_bounds : forall (CS : Type) (cs_begin : CS -> fconf -> N -> CS)
+    (compress_chunk : CS -> bytes -> bool -> CS * bytes) (P : kparams) (X : bytes) (cs : CS) (ops : list aop)
+    (a' : astate CS) (em' : bytes),
+  ops_ok ops -> arun CS cs_begin compress_chunk P X (a_new cs) ops [] = Some (a', em') ->
+  k_stage (a_k a') <> KInit -> 1 <= k_hint (a_k a') <= k_blockSize (a_k a') + 1.
+Proof. exact api_hint_bounds. Qed.
+Print Assumptions C10_api_hint_bounds.
